@@ -289,3 +289,17 @@ def pipeline_render(cfg):
     except Exception as e:
         got = "raised %s: %s" % (type(e).__name__, e)
     return (got, expected)
+
+
+def remargin(block, indent):
+    """real adjust_whitespace + PythonPrinter re-margining of a code block at the given indent level"""
+    import io
+    from mako import pygen
+    adj = pygen.adjust_whitespace(block) + "\n"
+    st = io.StringIO()
+    pr = pygen.PythonPrinter(st)
+    pr.indent = indent
+    pr.indent_detail = ["def"] * indent
+    pr.write_indented_block(adj)
+    pr._flush_adjusted_lines()
+    return st.getvalue()
